@@ -21,7 +21,8 @@ Import ListNotations.
 Definition chk_C05_shield_gen (strict : bool) (w : sworld) (e : event) : bool :=
   match e with
   | EUser tag a _ =>
-    if (tag =? T_SETUP)%nat || (tag =? T_REFRESH)%nat || (tag =? T_SHOW)%nat then negb (shielded w (nth0 a 0))
+    if (tag =? T_SETUP)%nat || (tag =? T_REFRESH)%nat || (tag =? T_SHOW)%nat || (tag =? T_SETUP_BEGIN)%nat
+    then negb (shielded w (nth0 a 0))
     else if (tag =? T_MODAL_RETURN)%nat then
       match find (fun f => (mf_orig f =? nth0 a 0)%nat) (sw_modal w) with
       | Some f => mf_closed f || negb strict
@@ -39,12 +40,52 @@ Definition chk_C05_input (w : sworld) (e : event) : bool :=
 Lemma chk_C05_gen_split strict w e : chk_C05_gen strict w e = chk_C05_shield_gen strict w e && chk_C05_input w e.
 Proof.
   destruct e; try reflexivity. cbn [chk_C05_gen chk_C05_shield_gen chk_C05_input].
-  destruct ((tag =? T_SETUP)%nat || (tag =? T_REFRESH)%nat || (tag =? T_SHOW)%nat) eqn:E1.
+  destruct ((tag =? T_SETUP)%nat || (tag =? T_REFRESH)%nat || (tag =? T_SHOW)%nat || (tag =? T_SETUP_BEGIN)%nat) eqn:E1.
   - destruct (tag =? T_INPUT)%nat eqn:E2; [|rewrite andb_true_r; reflexivity].
     apply Nat.eqb_eq in E2; subst tag. discriminate E1.
   - destruct (tag =? T_INPUT)%nat eqn:E2; [|rewrite andb_true_r; reflexivity].
     apply Nat.eqb_eq in E2; subst tag. reflexivity.
 Qed.
+
+(* ---- setup() with commands of its own (sc_setup_cmds) ----
+   [setup_cmds_ok]: a setup() that runs commands never reports failure (a failing one makes the scheduler discard
+   whatever entry is then on top and, for a modal entry, stop its loop: the strict form is false then, see the report).
+   [relax_setup specs chk]: the acceptor [chk] without its clauses for the RETURN of such a setup() (T_SETUP) and for
+   the refresh() of a screen with such a setup(): the entry need not be the top of the stack any more, and that it
+   is not beneath an open modal frame is not proved here.  The entry of such a setup() (T_SETUP_BEGIN) is checked. *)
+Definition has_cmds (sp : screen_spec) : bool := match sc_setup_cmds sp with [] => false | _ => true end.
+Definition setup_cmds_ok (specs : nat -> screen_spec) : Prop :=
+  forall s n, has_cmds (specs s) = true -> nth_last (sc_setup (specs s)) n = true.
+Lemma plain_setup_cmds_ok specs : plain_setup specs -> setup_cmds_ok specs.
+Proof. intros H s n E. unfold has_cmds in E. rewrite (H s) in E. discriminate E. Qed.
+(* the hypothesis decided on a table of screens *)
+Definition setup_cmds_okb (l : list screen_spec) : bool :=
+  forallb (fun sp => negb (has_cmds sp) || forallb (fun b : bool => b) (sc_setup sp)) l.
+Lemma forallb_id_nth_last l n : forallb (fun b : bool => b) l = true -> nth_last l n = true.
+Proof.
+  intros H. unfold nth_last. destruct l as [|a l']; [reflexivity|]. set (l := a :: l') in *. clearbody l.
+  assert (HL : last l true = true).
+  { clear -H. induction l as [|x r IH]; [reflexivity|]. cbn [forallb] in H. apply andb_true_iff in H. destruct H as [Hx H].
+    cbn [last]. destruct r; [exact Hx|apply IH, H]. }
+  destruct (nth_in_or_default n l (last l true)) as [Hin|E]; [|rewrite E; exact HL].
+  rewrite forallb_forall in H. apply (H _ Hin).
+Qed.
+Lemma setup_cmds_okb_ok l : setup_cmds_okb l = true -> setup_cmds_ok (fun n => nth n l default_spec).
+Proof.
+  intros H s n HC. cbv beta in *. destruct (nth_in_or_default s l default_spec) as [Hin|E].
+  - unfold setup_cmds_okb in H. rewrite forallb_forall in H. specialize (H _ Hin). rewrite HC in H. cbn [negb orb] in H.
+    apply forallb_id_nth_last, H.
+  - rewrite E in HC. discriminate HC.
+Qed.
+Definition relax_setup (specs : nat -> screen_spec) (chk : sworld -> event -> bool) (w : sworld) (e : event) : bool :=
+  match e with
+  | EUser tag a _ => if ((tag =? T_SETUP)%nat || (tag =? T_REFRESH)%nat) && has_cmds (specs (nth0 a 1)) then true else chk w e
+  | _ => chk w e
+  end.
+Lemma relax_setup_of specs chk w e : chk w e = true -> relax_setup specs chk w e = true.
+Proof. intros H. destruct e; cbn [relax_setup]; auto. destruct (_ && _); auto. Qed.
+Lemma relax_setup_plain specs chk : plain_setup specs -> forall w e, relax_setup specs chk w e = chk w e.
+Proof. intros H w e. destruct e; cbn [relax_setup]; auto. unfold has_cmds. rewrite (H _). rewrite andb_false_r. reflexivity. Qed.
 
 (* ---- the hypothesis of the strict form, decided on the trace: no force_quit, and no nested loop is
    entered while the stop flag is cleared (finding F13) ---- *)
@@ -413,6 +454,7 @@ Qed.
 
 Section Screen.
 Variable specs : nat -> screen_spec.
+Hypothesis Hcok : setup_cmds_ok specs.
 Variable typed : list (option str).
 Notation st := (lstate sstate).
 Notation code := (screen_code specs).
@@ -433,15 +475,15 @@ Definition accb (chk : sworld -> event -> bool) (t : list event) : Prop :=
 Lemma accb_cons chk e t : accb chk (e :: t) <-> accb chk t /\ chk (SWt t) e = true.
 Proof. unfold accb, SWt. cbn [rev]. apply srun_mon_snoc. Qed.
 
-Definition chkP := chk_C05_shield_gen false.
-Definition chkS := chk_C05_shield_gen true.
+Definition chkP := relax_setup specs (chk_C05_shield_gen false).
+Definition chkS := relax_setup specs (chk_C05_shield_gen true).
 
 (* what holds at every moment, even when the fuel runs out in the middle of an operation *)
 Definition At (t : list event) : Prop :=
   accb chkP t /\ (h_ok (Ht t) = true -> accb chkS t) /\ accb chk_C05_below t.
 Definition A s : Prop := At (trace s).
 
-Lemma A_emit e s : A s -> chkP (SW s) e = true ->
+Lemma A_emit_relaxed e s : A s -> chkP (SW s) e = true ->
   (h_ok (HH s) = true -> h_ok (hyp_step (HH s) e) = true -> chkS (SW s) e = true) ->
   chk_C05_below (SW s) e = true -> A (emit e s).
 Proof.
@@ -450,6 +492,13 @@ Proof.
   - intros Hh. change (Ht (e :: trace s)) with (HH (emit e s)) in Hh. rewrite HH_emit in Hh.
     pose proof (hyp_step_mono _ _ Hh) as Hh0. apply accb_cons. split; [apply A2, Hh0|apply C2; assumption].
   - apply accb_cons. split; assumption.
+Qed.
+Lemma A_emit e s : A s -> chk_C05_shield_gen false (SW s) e = true ->
+  (h_ok (HH s) = true -> h_ok (hyp_step (HH s) e) = true -> chk_C05_shield_gen true (SW s) e = true) ->
+  chk_C05_below (SW s) e = true -> A (emit e s).
+Proof.
+  intros HA C1 C2 C3. apply A_emit_relaxed; [exact HA|apply relax_setup_of, C1| |exact C3].
+  intros H1 H2. apply relax_setup_of, C2; assumption.
 Qed.
 
 Lemma A_emit_loop e s : is_user e = false -> A s -> A (emit e s).
@@ -1144,7 +1193,7 @@ Qed.
 
 (* events that concern neither the stack nor the frames *)
 Definition inert2 (tag : nat) : bool :=
-  inert_tag tag && negb ((tag =? T_SETUP)%nat || (tag =? T_REFRESH)%nat || (tag =? T_SHOW)%nat).
+  inert_tag tag && negb ((tag =? T_SETUP)%nat || (tag =? T_REFRESH)%nat || (tag =? T_SHOW)%nat || (tag =? T_SETUP_BEGIN)%nat).
 Lemma chk_inert2 b w tag a t : inert2 tag = true -> chk_C05_shield_gen b w (EUser tag a t) = true.
 Proof.
   unfold inert2, inert_tag. intros H. apply andb_true_iff in H. destruct H as [H1 H2].
@@ -1264,7 +1313,8 @@ End Progs.
 
 (* ================================================================ the stack operations *)
 Definition plain_tag (tag : nat) : bool :=
-  negb ((tag =? T_SETUP)%nat || (tag =? T_REFRESH)%nat || (tag =? T_SHOW)%nat || (tag =? T_MODAL_RETURN)%nat).
+  negb ((tag =? T_SETUP)%nat || (tag =? T_REFRESH)%nat || (tag =? T_SHOW)%nat || (tag =? T_SETUP_BEGIN)%nat ||
+        (tag =? T_MODAL_RETURN)%nat).
 Lemma chk_plain b w tag a t : plain_tag tag = true -> chk_C05_shield_gen b w (EUser tag a t) = true.
 Proof.
   unfold plain_tag. intros H. apply negb_true_iff in H. apply orb_false_iff in H. destruct H as [H1 H2].
@@ -1611,8 +1661,8 @@ Lemma A_modal_return s5 id sc f' rest : A s5 -> sw_modal (SW s5) = f' :: rest ->
   (h_ok (HH s5) = true -> mf_closed f' = true) -> A (emit (EUser T_MODAL_RETURN [id; sc] []) s5).
 Proof.
   intros HA M O C. apply A_emit; [exact HA| | |reflexivity].
-  - unfold chkP. cbn. rewrite M. cbn [find]. rewrite O, Nat.eqb_refl. apply orb_true_r.
-  - intros Hok _. unfold chkS. cbn. rewrite M. cbn [find]. rewrite O, Nat.eqb_refl. rewrite (C Hok). reflexivity.
+  - cbn. rewrite M. cbn [find]. rewrite O, Nat.eqb_refl. apply orb_true_r.
+  - intros Hok _. cbn. rewrite M. cbn [find]. rewrite O, Nat.eqb_refl. rewrite (C Hok). reflexivity.
 Qed.
 
 Lemma Inv_modal_return s5 s' id sc f' rest :
@@ -1664,6 +1714,35 @@ Proof.
   - rewrite HH_emit. reflexivity.
   - intros HA. apply A_emit; [exact HA|apply C|intros _ _; apply C|].
     apply chk_below_not_stack. destruct HT as [->|[->| ->]]; reflexivity.
+Qed.
+
+(* the entry of a setup() with commands: the top entry *)
+Lemma Keep_begin_event s a t d r : Inv s -> st_stack (ust s) = d :: r -> nth0 a 0 = sd_id d ->
+  Keep s (emit (EUser T_SETUP_BEGIN a t) s).
+Proof.
+  intros [[B1 _ _ _ _ _ _ _] _] U0 N.
+  assert (C : forall b, chk_C05_shield_gen b (SW s) (EUser T_SETUP_BEGIN a t) = true).
+  { intros b. change (chk_C05_shield_gen b (SW s) (EUser T_SETUP_BEGIN a t)) with (negb (shielded (SW s) (nth0 a 0))).
+    rewrite N. rewrite (shielded_top (SW s) (e_of d) (map e_of r) (sd_id d)); [reflexivity| |reflexivity].
+    rewrite B1, U0. reflexivity. }
+  split; [| | |reflexivity|reflexivity|reflexivity|reflexivity].
+  - rewrite SW_emit. apply step_inert_vsame. reflexivity.
+  - rewrite HH_emit. reflexivity.
+  - intros HA. apply A_emit; [exact HA|apply C|intros _ _; apply C|].
+    apply chk_below_not_stack. reflexivity.
+Qed.
+(* the return of a setup() with commands, and the refresh() of a screen with such a setup(): not checked *)
+Lemma Keep_exempt_event s tag a t : tag = T_SETUP \/ tag = T_REFRESH -> has_cmds (specs (nth0 a 1)) = true ->
+  Keep s (emit (EUser tag a t) s).
+Proof.
+  intros HT HC.
+  assert (C : forall chk, relax_setup specs chk (SW s) (EUser tag a t) = true).
+  { intros chk. cbn [relax_setup]. rewrite HC. destruct HT as [->| ->]; reflexivity. }
+  split; [| | |reflexivity|reflexivity|reflexivity|reflexivity].
+  - rewrite SW_emit. apply step_inert_vsame. destruct HT as [->| ->]; reflexivity.
+  - rewrite HH_emit. reflexivity.
+  - intros HA. apply A_emit_relaxed; [exact HA|apply C|intros _ _; apply C|].
+    apply chk_below_not_stack. destruct HT as [->| ->]; reflexivity.
 Qed.
 
 Section scmd_ind2.
@@ -1893,10 +1972,10 @@ Lemma std_run_cmds s self cnt l : Inv s -> std n s (run_cmds specs self cnt l).
 Proof. intros HI. unfold run_cmds. apply (std_do_scmds n L); [intros; apply std_close_screen; assumption|exact HI]. Qed.
 
 (* ---- the callbacks that concern the top entry ---- *)
-Lemma run_call_setup s d r : Inv s -> st_stack (ust s) = d :: r ->
-  run n s (call_setup specs d) (fun o s' => o = ONormal /\ Keep s s').
+Lemma run_call_setup_plain s d r : Inv s -> st_stack (ust s) = d :: r ->
+  run n s (call_setup_plain specs d) (fun o s' => o = ONormal /\ Keep s s').
 Proof.
-  intros HI U0. unfold call_setup. apply run_rd. cbv beta zeta.
+  intros HI U0. unfold call_setup_plain. apply run_rd. cbv beta zeta.
   apply run_wr_seq. set (s1 := s <| ust := _ |>).
   assert (K1 : Keep s s1) by (apply Keep_wr; reflexivity).
   assert (U1 : st_stack (ust s1) = d :: r) by exact U0.
@@ -1912,6 +1991,44 @@ Proof.
     apply run_wr. split; [reflexivity|]. eapply Keep_trans; [exact K4|apply Keep_wr; reflexivity].
   - apply run_seq. apply run_ret. apply run_wr. split; [reflexivity|].
     eapply Keep_trans; [exact K02|apply Keep_wr; reflexivity].
+Qed.
+
+(* a setup() with commands: entered for the top entry; its commands are a callback like refresh()'s (not in a try
+   block); it reports success ([setup_cmds_ok]); the stack is whatever the commands left *)
+Definition SetupPost (d : sdata) s (o : outcome) s' : Prop :=
+  (o = ONormal /\ Keep s s') \/
+  (Post s o s' /\ has_cmds (specs (sd_scr d)) = true /\ (o = ONormal -> st_rb (ust s') = true)).
+
+Lemma run_call_setup s d r : Inv s -> st_stack (ust s) = d :: r ->
+  run n s (call_setup specs d) (SetupPost d s).
+Proof.
+  intros HI U0. unfold call_setup. destruct (sc_setup_cmds (specs (sd_scr d))) as [|c0 cs] eqn:EC.
+  { eapply run_conseq; [eapply run_call_setup_plain; eauto|]. intros o s' H. left. exact H. }
+  assert (HC : has_cmds (specs (sd_scr d)) = true) by (unfold has_cmds; rewrite EC; reflexivity).
+  unfold call_setup_cmds. apply run_rd. cbv beta zeta. rewrite (Hcok (sd_scr d) _ HC). cbv iota.
+  apply run_wr_seq. set (s1 := s <| ust := _ |>).
+  assert (K1 : Keep s s1) by (apply Keep_wr; reflexivity).
+  assert (U1 : st_stack (ust s1) = d :: r) by exact U0.
+  pose proof (Keep_begin_event s1 [sd_id d; sd_scr d; sd_args d] [] d r (Keep_inv _ _ _ K1 HI) U1 eq_refl) as K2.
+  apply run_seq. unfold ev. apply run_emit; [exact (k_A _ _ K2)|]. cbn [user_event].
+  set (s2 := emit _ s1) in *. assert (K02 : Keep s s2) by (eapply Keep_trans; eauto). clearbody s2. clear K2 K1 U1. clearbody s1.
+  pose proof (Keep_inv _ _ _ K02 HI) as I2. pose proof (Keep_rel _ _ K02) as R02.
+  apply run_seq_std; [apply std_run_cmds, I2| |].
+  - intros s3 I3 R3.
+    pose proof (Keep_exempt_event s3 T_SETUP [sd_id d; sd_scr d; sd_args d; b2n true] [] (or_introl eq_refl) HC) as K3.
+    apply run_seq. unfold ev. apply run_emit; [exact (k_A _ _ K3)|]. cbn [user_event].
+    set (s4 := emit _ s3) in *. clearbody s4.
+    apply run_seq. apply run_wr_seq. set (s5 := s4 <| ust := _ |>).
+    assert (K5 : Keep s3 s5) by (eapply Keep_trans; [exact K3|apply Keep_wr; reflexivity]). clearbody s5.
+    apply run_regsource. set (s6 := emit _ _).
+    assert (K6 : Keep s3 s6) by (eapply Keep_trans; [exact K5|apply Keep_regsource]). clearbody s6.
+    apply run_wr. right. split; [|split; [exact HC|intros _; reflexivity]].
+    assert (K7 : Keep s3 (s6 <| ust := (ust s6) <| st_rb := true |> |>))
+      by (eapply Keep_trans; [exact K6|apply Keep_wr; reflexivity]).
+    split; [eapply Keep_inv; [exact K7|exact I3]|].
+    eapply Rel_trans_l; [exact R02|]. eapply Rel_trans_l; [exact R3|apply Keep_rel, K7].
+  - intros o s3 NO I3 R3. right. split; [|split; [exact HC|intros E; congruence]].
+    split; [exact I3|eapply Rel_trans_l; [exact R02|exact R3]].
 Qed.
 
 Lemma std_call_refresh s d r : Inv s -> st_stack (ust s) = d :: r -> std n s (call_refresh specs d).
@@ -1991,17 +2108,42 @@ Proof.
   repeat first [apply std_process_input; assumption|sstep L].
 Qed.
 
+(* refresh() of a screen whose setup() runs commands: the entry need not be the top of the stack *)
+Lemma std_call_refresh_cmds s d : Inv s -> has_cmds (specs (sd_scr d)) = true -> std n s (call_refresh specs d).
+Proof.
+  intros HI HC. unfold call_refresh. apply run_rd. cbv beta zeta.
+  apply run_wr_seq. set (s1 := s <| ust := _ |>).
+  assert (K1 : Keep s s1) by (apply Keep_wr; reflexivity).
+  pose proof (Keep_exempt_event s1 T_REFRESH [sd_id d; sd_scr d; sd_args d] [] (or_intror eq_refl) HC) as K2.
+  apply run_seq. unfold ev. apply run_emit; [exact (k_A _ _ K2)|]. cbn [user_event].
+  set (s2 := emit _ s1) in *. assert (K02 : Keep s s2) by (eapply Keep_trans; eauto). clearbody s2.
+  apply (run_std_post s s2); [apply Keep_rel, K02|]. apply std_run_cmds. eapply Keep_inv; eauto.
+Qed.
+
 Lemma std_process_screen s : Inv s -> std n s (process_screen specs).
 Proof.
   intros HI. unfold process_screen, with_top. apply std_rd. cbv beta zeta.
   destruct (st_stack (ust s)) as [|top r] eqn:U0; [sstep L|].
   (* first part: ready or setup; the stack is left alone *)
   assert (P1 : run n s (rd (fun u => if ss_ready (scr_of u (sd_scr top)) then wr (fun u0 => u0 <| st_rb := true |>) else call_setup specs top))
-                   (fun o s' => o = ONormal /\ Keep s s')).
+                   (SetupPost top s)).
   { apply run_rd. cbv beta. destruct (ss_ready (scr_of (ust s) (sd_scr top))).
-    - apply run_wr. split; [reflexivity|apply Keep_wr; reflexivity].
+    - apply run_wr. left. split; [reflexivity|apply Keep_wr; reflexivity].
     - eapply run_call_setup; eauto. }
-  apply run_seq. eapply run_conseq; [exact P1|]. intros o s1 [-> K1].
+  apply run_seq. eapply run_conseq; [exact P1|]. intros o s1 [[-> K1]|([I1 R1] & HC & RB)].
+  2:{ (* a setup() with commands returned: it succeeded; the stack is whatever it left *)
+    clear P1. destruct o; try (split; assumption). cbn [bal] in R1.
+    apply run_rd. cbv beta. rewrite (RB eq_refl). cbn [negb].
+    apply run_seq. apply run_regsource. set (s2 := emit _ _).
+    assert (K2 : Keep s1 s2) by apply Keep_regsource.
+    pose proof (Keep_inv _ _ _ K2 I1) as I2. clearbody s2.
+    apply (run_std_post s s2); [eapply Rel_trans_l; [exact R1|apply Keep_rel, K2]|].
+    apply std_try; [|intros; apply (std_raise n L); assumption].
+    sstep L; [apply std_call_refresh_cmds; assumption|].
+    apply std_rd. cbv beta. destruct (st_stack (ust s0)) as [|top' r'] eqn:U3; [sstep L|].
+    destruct (sd_id top' =? sd_id top)%nat eqn:E; [|sstep L]. apply Nat.eqb_eq in E.
+    sstep L; [eapply std_draw_screen; eauto|].
+    repeat first [apply (std_get_input n L); assumption|sstep L]. }
   pose proof (Keep_inv _ _ _ K1 HI) as I1. pose proof (Keep_rel _ _ K1) as R1.
   assert (U1 : st_stack (ust s1) = top :: r) by (rewrite (k_u1 _ _ K1); exact U0).
   clear P1. apply run_rd. cbv beta. destruct (negb (st_rb (ust s1))).
@@ -2104,13 +2246,34 @@ End Screen.
 (* every session: the shield clauses (setup/refresh/show never beneath an open modal frame) and the
    matching of returns to frames hold; under the trace hypothesis [no_f13] every return finds its
    frame closed *)
-Theorem C05_shield_session specs specl typed quit run_empty fuel acts :
+Lemma srun_mon_ext c1 c2 t : (forall w e, c1 w e = c2 w e) -> forall w i, srun_mon c1 w t i = srun_mon c2 w t i.
+Proof. intros H. induction t as [|e r IH]; intros w i; cbn [srun_mon]; [reflexivity|]. rewrite H, IH. reflexivity. Qed.
+Lemma sok_ext c1 c2 typed t : (forall w e, c1 w e = c2 w e) -> sok c1 typed t = sok c2 typed t.
+Proof. intros H. unfold sok. rewrite (srun_mon_ext c1 c2 t H). reflexivity. Qed.
+
+(* setup() may run commands, provided such a setup() never reports failure: the acceptors without their clauses for
+   the return of such a setup() and the refresh() of its screen ([relax_setup]); the stack primitives: in full *)
+Theorem C05_shield_session_cmds specs (Hcok : setup_cmds_ok specs) specl typed quit run_empty fuel acts :
+  let t := rev (trace (snd (app_run_all specs specl typed quit run_empty fuel acts))) in
+  sok (relax_setup specs chk_C05_shield_partial) typed t = true /\
+  (no_f13 t = true -> sok (relax_setup specs chk_C05_shield) typed t = true) /\
+  sok chk_C05_below typed t = true.
+Proof.
+  intros t. destruct (app_run_all_ok specs Hcok typed specl typed quit run_empty fuel acts) as (A1 & A2 & A3).
+  split; [apply sok_iff; exact A1|]. split; [|apply sok_iff; exact A3]. intros H. apply sok_iff. apply A2. exact H.
+Qed.
+
+Theorem C05_shield_session specs (Hplain : plain_setup specs) specl typed quit run_empty fuel acts :
   let t := rev (trace (snd (app_run_all specs specl typed quit run_empty fuel acts))) in
   sok chk_C05_shield_partial typed t = true /\ (no_f13 t = true -> sok chk_C05_shield typed t = true) /\
   sok chk_C05_below typed t = true.
 Proof.
-  intros t. destruct (app_run_all_ok specs typed specl typed quit run_empty fuel acts) as (A1 & A2 & A3).
-  split; [apply sok_iff; exact A1|]. split; [|apply sok_iff; exact A3]. intros H. apply sok_iff. apply A2. exact H.
+  intros t.
+  destruct (C05_shield_session_cmds specs (plain_setup_cmds_ok specs Hplain) specl typed quit run_empty fuel acts) as (H1 & H2 & H3).
+  fold t in H1, H2, H3.
+  rewrite (sok_ext _ _ typed t (relax_setup_plain specs chk_C05_shield_partial Hplain)) in H1.
+  rewrite (sok_ext _ _ typed t (relax_setup_plain specs chk_C05_shield Hplain)) in H2.
+  split; [exact H1|split; [exact H2|exact H3]].
 Qed.
 
 (* events other than the stack primitives leave the stack and every frame's current entry alone: the
@@ -2140,8 +2303,6 @@ Proof.
   destruct (c1 w e), (c2 w e); cbn [andb]; try (split; [discriminate|intros [X Y]; discriminate]).
   apply IH.
 Qed.
-Lemma srun_mon_ext c1 c2 t : (forall w e, c1 w e = c2 w e) -> forall w i, srun_mon c1 w t i = srun_mon c2 w t i.
-Proof. intros H. induction t as [|e r IH]; intros w i; cbn [srun_mon]; [reflexivity|]. rewrite H, IH. reflexivity. Qed.
 
 Lemma sok_C05_gen_split strict typed t :
   sok (chk_C05_gen strict) typed t = sok (chk_C05_shield_gen strict) typed t && sok chk_C05_input typed t.
@@ -2155,12 +2316,12 @@ Proof.
 Qed.
 
 (* the monitors of ScreenMon.v on session traces: only the T_INPUT clause is left to be observed *)
-Theorem C05_session_modulo_input specs specl typed quit run_empty fuel acts :
+Theorem C05_session_modulo_input specs (Hplain : plain_setup specs) specl typed quit run_empty fuel acts :
   let t := rev (trace (snd (app_run_all specs specl typed quit run_empty fuel acts))) in
   sok chk_C05_partial typed t = sok chk_C05_input typed t /\
   (no_f13 t = true -> sok chk_C05 typed t = sok chk_C05_input typed t).
 Proof.
-  intros t. destruct (C05_shield_session specs specl typed quit run_empty fuel acts) as (H1 & H2 & _). fold t in H1, H2.
+  intros t. destruct (C05_shield_session specs Hplain specl typed quit run_empty fuel acts) as (H1 & H2 & _). fold t in H1, H2.
   split.
   - unfold chk_C05_partial. rewrite sok_C05_gen_split. fold chk_C05_shield_partial. rewrite H1. reflexivity.
   - intros N. unfold chk_C05. rewrite sok_C05_gen_split. fold chk_C05_shield. rewrite (H2 N). reflexivity.
@@ -2217,12 +2378,12 @@ Definition kx : str := [120%N]. Definition ky : str := [121%N].
 Definition scr (refresh show : list scmd) (inp : list (str * (list scmd * ret_val))) : screen_spec :=
   {| sc_setup := []; sc_refresh := refresh; sc_show := show; sc_closed := []; sc_input := inp;
      sc_input_default := ([], None); sc_prompt_none := false; sc_input_required := true;
-     sc_no_separator := false; sc_skip_check := false; sc_pages := 0; sc_answer0 := AnsNoAttr; sc_custom := [] |}.
+     sc_no_separator := false; sc_skip_check := false; sc_pages := 0; sc_answer0 := AnsNoAttr; sc_custom := []; sc_setup_cmds := [] |}.
 (* a screen that never asks for input *)
 Definition quiet (refresh show : list scmd) : screen_spec :=
   {| sc_setup := []; sc_refresh := refresh; sc_show := show; sc_closed := []; sc_input := [];
      sc_input_default := ([], Some RProcessed); sc_prompt_none := false; sc_input_required := false;
-     sc_no_separator := false; sc_skip_check := false; sc_pages := 0; sc_answer0 := AnsNoAttr; sc_custom := [] |}.
+     sc_no_separator := false; sc_skip_check := false; sc_pages := 0; sc_answer0 := AnsNoAttr; sc_custom := []; sc_setup_cmds := [] |}.
 Definition session (specl : list screen_spec) (typed : list (option str)) (acts : list saction) : list outcome * list event :=
   let '(os, st) := app_run_all (fun n => nth n specl default_spec) specl typed None false 2000 acts in
   (os, rev (trace st)).
@@ -2278,7 +2439,7 @@ Definition cx1_specs := [ quiet [SIfCount 1 [SPush 2 0] []] [];
                           {| sc_setup := []; sc_refresh := [SIfCount 1 [SPushModal 1 0] []]; sc_show := [SIfCount 1 [SCloseSig] []];
                              sc_closed := []; sc_input := []; sc_input_default := ([], Some RProcessed);
                              sc_prompt_none := false; sc_input_required := true; sc_no_separator := false;
-                             sc_skip_check := false; sc_pages := 0; sc_answer0 := AnsNoAttr; sc_custom := [] |} ].
+                             sc_skip_check := false; sc_pages := 0; sc_answer0 := AnsNoAttr; sc_custom := []; sc_setup_cmds := [] |} ].
 Definition cx1_typed := [Some kx].
 Definition cx1 := session cx1_specs cx1_typed start.
 (* cx2: no screen twice; force_quit, then a second App.run() *)
@@ -2287,7 +2448,7 @@ Definition cx2_specs := [ {| sc_setup := [];
                                             [SIfCount 4 [SPushModal 1 0] []]]]];
                              sc_show := []; sc_closed := []; sc_input := []; sc_input_default := ([], Some RRedraw);
                              sc_prompt_none := false; sc_input_required := true; sc_no_separator := false;
-                             sc_skip_check := false; sc_pages := 0; sc_answer0 := AnsNoAttr; sc_custom := [] |};
+                             sc_skip_check := false; sc_pages := 0; sc_answer0 := AnsNoAttr; sc_custom := []; sc_setup_cmds := [] |};
                           quiet [] [] ].
 Definition cx2_typed := [Some kx; Some ky].
 Definition cx2 := session cx2_specs cx2_typed [SACmds [SSchedule 0 0]; SARun; SARun].
